@@ -465,7 +465,7 @@ def r3(F, rep):
             rep.add("C01-R3", "%s|%s" % (f.q, nm), f.loc(c), "%s: bias->%s() is called in a loop over %s" % (
                 f.q, nm, "biases_active()" if ok else (rng[:120] or "NO LOOP")), ok,
                 detail="energy and forces would be collected from different sets of biases", func=f.q)
-    if min(want.values()) < 1 or sum(want.values()) < 4:
+    if min(want.values()) < 1:
         raise AnalysisBroken("bias loops not found: %s" % want)
     f = F.one("colvarmodule::update_colvar_forces")
     adds = [c for c in X.calls(f) if X.callee_name(c) == "add_energy" and X.call_args(c) and "total_bias_energy" in X.key(X.call_args(c)[0], f)]
